@@ -204,6 +204,7 @@ func main() {
 	c.Rule += " " + "A third party edits the Lock right before call k of Resolve."
 	c.Rule += " " + "The real revision reconciler over a Lock whose dependency leaves, returns violating, returns fine, with deactivation and re-activation; a missing dependency next to an installed package of the same repository path on another registry."
 	c.Rule += " " + "Three revisions (A -> B -> C missing, Z) reconciled by ONE revision reconciler: while the response to each write of A's reconcile is in flight, B and Z are reconciled to completion; a satisfied report is held against the Lock."
+	c.Rule += " " + "res-paged-registry: the resolver with the real registry fetcher against an in-process registry that serves its tag list in pages of 4 with a Link header; the highest satisfying tag is installed wherever it is listed."
 	c.Assumptions = []string{
 		"github.com/Masterminds/semver NewVersion/NewConstraint/Constraints.Check/Version.Compare are the trusted primitives",
 		"a digest constraint is exactly sha256:<64 lowercase hex>",
@@ -225,6 +226,9 @@ func main() {
 	parallel(c.N(8000, 60000), func(i int) { runResolveCase(c, i) })
 	parallel(c.N(30, 300), func(i int) { revisionHistory(c, i) })
 	parallel(c.N(8, 40), func(i int) { sharedManagerInterleave(c, i) })
+	if err := kit.Try(func() { pagedRegistry(c) }); err != nil {
+		c.Violate("harness-panic:paged-registry", "res-paged-registry", err.Error(), nil)
+	}
 	parallel(18, func(i int) { mirrorCase(c, i) })
 	c.Exhaustive(false) // parts 2 and 3 are sampled; part 1 is exhaustive up to dag_exhaustive_max_ids
 	samples.flush(c)
